@@ -26,6 +26,9 @@ class C03(ProgProp):
             return {"deep": shape, "n": n, "leaf": rng.choice(["value", "item", "error", "sync", "sync"]),
                     "catch_at": rng.choice([None, None, 0, 1, 7]), "conv": rng.choice(["call", "value"]),
                     "shared": rng.random() < 0.3}
+        if k % 16 == 9:
+            from .. import gen as g
+            return self.motif_case(rng, tier, g.motif_out_of_band_flush(rng))
         if k % 8 == 5:
             from .. import gen as g
             spec = g.motif_cancel_scheduled(rng)
